@@ -1,0 +1,19 @@
+//go:build verif
+
+package server
+
+// verifHook is called at every verification yield point when set. It is set by
+// the verification harness only (build tag verif).
+var verifHook func(point int)
+
+// verifManual makes LockDB.startCheckLoop a no-op so that the harness drives
+// the clock and the timeout/expiry sweeps itself.
+var verifManual bool
+
+func verifPoint(point int) {
+	if hook := verifHook; hook != nil {
+		hook(point)
+	}
+}
+
+func verifManualClock() bool { return verifManual }
